@@ -100,6 +100,10 @@ class _SubCtx:
     def note(self, s):
         pass
 
+    def borrow(self, module_name, only, prefix):
+        """a borrowed table's own borrows are not part of what the borrower asked for"""
+        return None
+
     def instance(self, *a):
         return self.parent.instance(*a)
 
